@@ -12,7 +12,13 @@ PROP = {'rule': 'rapid-generated cases. A case = one webhook-mutated pod (1-5 re
          'through the plugin three ways: runtime-proxy requests (FromProxy), NRI requests (FromNri), reconciler PodMeta (FromReconciler; '
          'per-cgroup-file entry points or the aggregated ones). non-trivial = pod treated as BE AND >= 2 containers handed to the '
          'pod-level hook AND (a container whose quota is below the 1000 us minimum with CFS quota enabled OR a container without cpu or '
-         'memory limit). distinct = FNV-64 fingerprint of the pod and rule description.',
+         'memory limit). distinct = FNV-64 fingerprint of the pod and rule description. staleAnnotation: the same pods and rule sequences, but the '
+         'annotation is replaced by one the webhook would not write for the spec (absent / {} / not JSON / entries of declaring containers '
+         'dropped, given other amounts or stripped of limits / an entry for a non-existent container), reconciler path only; non-trivial = '
+         'BE pod with >= 1 declaring container whose annotation differs from the right one. webhookAnnotation: CREATE of pods with 1-4 '
+         'containers carrying batch (and other) resources that already bring an annotation along (none / empty / not JSON / right / '
+         'edited: container dropped, limits or requests dropped, a limit or request changed or added, unknown container added) through '
+         'extendedResourceSpecMutatingPod; non-trivial = admitted pod with >= 1 declaring container whose submitted annotation is not the right one.',
  'assumptions': ['pkg/koordlet/util/perf_group/perf_group_linux.go is replaced (build overlay only) by a cgo-free stand-in with the same '
                  'exported surface, because libpfm4 headers are not installed; no oracle touches perf counters',
                  'best-effort = pod label koordinator.sh/qosClass=BE (the only marking apis/extension.GetQoSClassByAttrs reads; its '
@@ -21,6 +27,11 @@ PROP = {'rule': 'rapid-generated cases. A case = one webhook-mutated pod (1-5 re
                  'webhook-mutated pods are built directly from the documented contract of pkg/webhook/pod/mutating (functions unexported in '
                  'another package): integer batch quantities, request <= limit, annotation lists the regular containers that declare at '
                  'least one batch resource, absent limit = absent key',
+                 'staleAnnotation: annotation entries are keyed only by declaring regular containers or by names absent from the pod, because '
+                 'for a container that declares nothing the reconciler deliberately falls back to the annotation (outside the statement); '
+                 'proxy/NRI requests carry only the annotation and are not asserted against a disagreeing spec',
+                 'webhookAnnotation: the annotation is compared by value (quantity Cmp) after plain JSON decoding; a refused admission '
+                 '(undecodable submitted annotation) is not asserted',
                  'cpu amounts are capped at 2^40 milli-cores per container so that milli*100000 cannot overflow int64 (not a real node size)',
                  'ratio scaling: ceil(quota/ratio) is computed in float64 by the code; accepted interval x(1-2^-50) <= got <= x(1+2^-50)+1 '
                  'with x = quota/ratio in exact rational arithmetic; a scaled value below 1000 us may also be re-clamped to 1000',
@@ -28,15 +39,21 @@ PROP = {'rule': 'rapid-generated cases. A case = one webhook-mutated pod (1-5 re
                  'code decides the boundary in float64, so an update within 1e-9 of exactly 0.01 away is accepted both as taken and as ignored'],
  'units': [{'name': 'batchresource',
             'pkg': 'pkg/koordlet/runtimehooks/hooks/batchresource',
-            'files': ['C14/c14_batchresource_test.go'],
-            'tests': [{'run': 'TestVerifC14Hooks', 'quick': 10000, 'thorough': 25000}]},
+            'files': ['C14/c14_batchresource_test.go', 'C14/c14_stale_annotation_test.go'],
+            'tests': [{'run': 'TestVerifC14Hooks', 'quick': 10000, 'thorough': 25000},
+                      # reconciler path with an annotation that disagrees with pod.spec (absent / stale / hand-written): the declared
+                      # amounts of the pod object must win for pod level and container level alike
+                      {'run': 'TestVerifC14StaleAnnotation', 'quick': 5000, 'thorough': 15000}]},
            # the statement's input is "a request built from a webhook-mutated pod": the per-container summary annotation the hooks
            # read is written by pkg/webhook/pod/mutating/extended_resource_spec.go (one of C14's anchors). That step is checked by
            # the C13 mutating harness (annotation decodes to exactly the batch entries of the final spec), run here as a C14 unit.
            {'name': 'webhook-annotation',
             'pkg': 'pkg/webhook/pod/mutating',
-            'files': ['C13/c13_mutating_test.go'],
-            'tests': [{'run': 'TestVerifC13Mutating', 'quick': 2000, 'thorough': 8000, 'shrinktime': '15s', 'env': {'GOGC': '400'}}]}],
+            'files': ['C13/c13_mutating_test.go', 'C14/c14_webhook_annotation_test.go'],
+            'tests': [{'run': 'TestVerifC13Mutating', 'quick': 2000, 'thorough': 8000, 'shrinktime': '15s', 'env': {'GOGC': '400'}},
+                      # CREATE of pods that already bring an extended-resource-spec annotation along (right / empty / edited in
+                      # requests, limits, container set): afterwards the annotation must equal the declared batch amounts by value
+                      {'run': 'TestVerifC14WebhookAnnotation', 'quick': 5000, 'thorough': 15000}]}],
  'manifest': {'technique': 'property-based testing (rapid): generated webhook-mutated pods x rule configurations, driven through the '
                            'proxy, NRI and reconciler entry points, with an independent re-statement of the cgroup conversions as oracle '
                            'and output-vs-output relations between pod level and container level',
@@ -45,7 +62,9 @@ PROP = {'rule': 'rapid-generated cases. A case = one webhook-mutated pod (1-5 re
                       'divided by a normalization ratio above 1), the pod-level values must equal the same conversion of the sums over the '
                       'containers handed to the hook (unlimited as soon as one is), the pod must never be tighter than any container the hook '
                       'configured on the same path (regular and init containers) and must equal their sum up to rounding and minimum '
-                      'clamps; pods labelled with another QoS class must come back with an empty response. Exploration, not proof: '
+                      'clamps; pods labelled with another QoS class must come back with an empty response. On the reconciler path the same holds '
+                      'against the amounts declared in pod.spec when the annotation is absent, stale or hand-written; and after a CREATE went '
+                      'through the webhook the annotation equals the declared batch requests and limits whatever annotation was submitted. Exploration, not proof: '
                       'absence of violations over the sampled cases.',
               'note': 'BE = QoS label; mutated pods constructed from the webhook contract rather than by calling the webhook; float64 '
                       'ceil tolerance of 1 us; perf_group cgo stub in the build overlay; rapid\'s PRNG and shrinker'}}
